@@ -302,6 +302,11 @@ func r2report(c *core.Ctx, m *drvModel) {
 
 // r2reportMain: AddClient(clientip, teid, upfip) with the three results of one EstablishPDU call.
 func r2reportMain(c *core.Ctx, R string) {
+
+	if who := mainDelegates(c); who != "" {
+		c.SoftUndecided("%s: main hands the modes over to %s; the main-level rules read the body of main only", R, who)
+		return
+	}
 	mainFn := mustFunc(c, pMain, "main")
 	mp := core.NewPather(mainFn)
 	n := 0
@@ -454,6 +459,11 @@ func r2main(c *core.Ctx) {
 	const RC, RO = "R2.clamp", "R2.order"
 	c.Rule(RC, "every ueList[i]/pduList[i] in main sits in a loop whose bound is provably <= the number of registrations; service/release bounds <= establishment bound")
 	c.Rule(RO, "per mode: connect < NG setup < register* < establish* < service* < release* < deregister*, never backwards")
+
+	if who := mainDelegates(c); who != "" {
+		c.SoftUndecided("%s/R2.order: main hands the modes over to %s; the main-level rules read the body of main only", RC, who)
+		return
+	}
 	fn := mustFunc(c, pMain, "main")
 	c.Analysed(core.FuncName(fn))
 	p := core.NewPather(fn)
